@@ -87,6 +87,12 @@ _n = copy.deepcopy(_LIST_NODES)
 _n["trio"] = {"content": "block{2,3}", "group": "block"}
 FAMILY_SPECS["trio"] = {"nodes": _n, "marks": copy.deepcopy(_MARKS)}
 TRIO_FAMILY = ["trio"]
+# an inline ATOM that nevertheless has content (a footnote): it counts as open + content + close like every non-leaf
+# node - `atom` only tells the editor not to put the cursor inside (C02 / C09; seeded change C02-8 sized nodes by is_atom)
+_n = copy.deepcopy(_LIST_NODES)
+_n["footnote"] = {"content": "text*", "group": "inline", "inline": True, "atom": True}
+FAMILY_SPECS["atomic"] = {"nodes": _n, "marks": copy.deepcopy(_MARKS)}
+ATOMIC_FAMILY = ["atomic"]
 _SCHEMAS: dict[str, Schema] = {}
 
 
